@@ -174,6 +174,37 @@ def _g3(prog, res):
   fn = prog.function(KL + '.custom_reduce_prod')
   grad = [n for n in ast.walk(fn.node) if isinstance(n, ast.FunctionDef)
           and n.name == 'grad_fn'][0]
+  # the indicator of "zero" must be the exact test: the other branch divides
+  # with divide_no_nan, for which only an exact 0 is zero.  A tolerance
+  # (|t| < 1e-7) makes a tiny non-zero factor count in BOTH branches.
+  zdefs = [st for st in grad.body if isinstance(st, ast.Assign) and dotted(
+      st.targets[0]) == 'is_zero']
+  tolerance = None
+  for st in zdefs:
+    v = st.value
+    while isinstance(v, ast.Call) and (prog.ext_name(fn.module, v.func) or
+                                       '').split('.')[-1] == 'cast':
+      v = v.args[0]
+    ext = (prog.ext_name(fn.module, v.func) or '').split('.')[-1] if \
+        isinstance(v, ast.Call) else None
+    lhs = rhs = None
+    if isinstance(v, ast.Compare) and len(v.ops) == 1 and isinstance(
+        v.ops[0], (ast.Lt, ast.LtE)):
+      lhs, rhs = v.left, v.comparators[0]
+    elif ext in ('less', 'less_equal') and len(v.args) == 2:
+      lhs, rhs = v.args
+    if lhs is not None and isinstance(lhs, ast.Call) and (prog.ext_name(
+        fn.module, lhs.func) or '').split('.')[-1] == 'abs' and isinstance(
+            const_value(rhs, None), (int, float)):
+      tolerance = st
+  if tolerance is not None:
+    res.violation('G3', 'custom_reduce_prod|zero-test', fn.loc(tolerance),
+                  '`%s`: a factor with 0 < |t| below the tolerance counts as '
+                  'a zero in the single-zero branch AND as non-zero in '
+                  'divide_no_nan(fwd, t): its partial derivative is added '
+                  'twice (and an exact zero next to it loses its gradient)' %
+                  norm_text(tolerance)[:70])
+    return
   # cases: i zero / non-zero  x  number of OTHER zeros 0 / 1 / 2+
   for i_zero in (False, True):
     for others in (0, 1, 2):
@@ -251,6 +282,11 @@ def _g3(prog, res):
             if dotted(x) == 'is_zero':
               return ('count', nz)
             raise AnalysisError('grad_fn: reduce_sum(%s)' % norm_text(x))
+          if op in ('reduce_max', 'reduce_any') and dotted(a[0]) == 'is_zero':
+            return Z(1 if nz > 0 else 0)      # "some factor is zero"
+          if op in ('reduce_min', 'reduce_all') and dotted(a[0]) == 'is_zero':
+            raise AnalysisError('grad_fn: %s(is_zero) needs the axis length' %
+                                op)
           if op == 'reduce_prod':
             # product over the axis of (t + is_zero) = P
             if norm_text(a[0]).replace(' ', '') == 't+is_zero':
